@@ -190,6 +190,8 @@ struct snk {
     int nscript;
     size_t block;      /* > 0: a FIFO drained in blocks, a write ends at the next block boundary */
     unsigned answered; /* ANS_BIT()s of the non-default answers really given */
+    bool zero_any;     /* a scripted zero answer is given to a single-octet call, too (run family) */
+    long dead_from;    /* >= 0: from this call on the sink takes nothing, for ever (answers zero) */
 };
 
 static int
@@ -230,6 +232,10 @@ snk_answer(struct snk *s, long k, size_t n)
 {
     const int a = k < s->nscript ? s->script[k] : A_ALL;
     size_t take = n;
+    if (s->dead_from >= 0 && k >= s->dead_from) {
+        s->answered |= ANS_BIT(A_ZERO);
+        return 0;
+    }
     switch (a) {
     case A_EAGAIN: s->answered |= ANS_BIT(a); return -EAGAIN;
     case A_EINTR: s->answered |= ANS_BIT(a); return -EINTR;
@@ -239,7 +245,7 @@ snk_answer(struct snk *s, long k, size_t n)
         /* only a write of several octets is answered with 0: what a zero
          * answer to a single-octet call means to the caller of
          * sink_put_octet is C17's business, not scripted here */
-        if (n > 1) {
+        if (n > 1 || s->zero_any) {
             s->answered |= ANS_BIT(a);
             return 0;
         }
@@ -275,9 +281,9 @@ snk_octet(void *drv, unsigned char c)
         s->fired = true;
         return s->fcode = s->err_code;
     }
-    if (s->script) {
+    if (s->script || s->dead_from >= 0) {
         const long a = snk_answer(s, k, 1);
-        if (a < 0)
+        if (a <= 0) /* zero: only when the script says so for single octets (zero_any, dead_from) */
             return (int)a;
     }
     if (s->n >= s->cap) {
@@ -302,7 +308,7 @@ snk_chunk(void *drv, const void *p, size_t n)
         s->fired = true;
         return s->fcode = s->err_code;
     }
-    if (s->script || s->block) {
+    if (s->script || s->block || s->dead_from >= 0) {
         const long a = snk_answer(s, k, n);
         if (a <= 0)
             return (ssize_t)a;
@@ -341,6 +347,7 @@ snk_setup(struct snk *s, Sink *h, enum kind k, unsigned char *buf, size_t cap)
     s->cap = cap;
     s->budget = 2 * (long)cap + 16;
     s->err_at = -1;
+    s->dead_from = -1;
     if (k == K_OCTET)
         octet_sink_init(h, snk_octet, s);
     else
@@ -470,6 +477,7 @@ static struct {
     int folded;        /* interruptions folded away by fold_interruptions() */
     unsigned char out[MAXSTREAM + 16];
     bool hang, overflow;
+    bool latched;      /* the run ended at a call that repeated a hard driver error without consuming anything */
     unsigned flags_after;
     int state_after;
     unsigned char ctx_after[sizeof(RFC1055Context)]; /* the whole context, octet by octet */
@@ -537,6 +545,7 @@ run_decoder(unsigned flags0, int state0, bool use_init_fn, enum kind kind,
     R.n = 0;
     R.folded = 0;
     R.hang = R.overflow = false;
+    R.latched = false;
     for (;;) {
         struct dcall *c = &R.c[R.n];
         c->off0 = s.pos;
@@ -564,6 +573,23 @@ run_decoder(unsigned flags0, int state0, bool use_init_fn, enum kind kind,
         }
         if (c->rc == s.end_code && !c->sfired && !c->kfired && s.pos >= len)
             break;
+        /* A decoder may latch a hard driver error: the statement says that the
+         * code comes back unchanged, not that the decoder is usable afterwards
+         * without rfc1055_context_init.  The call right behind the one in which
+         * a driver answered a hard code (anything but -EAGAIN/-EINTR) and which
+         * returned that code, that returns the same code again without any
+         * driver failing, consumes nothing and emits nothing, ends the run: the
+         * call is taken out of the log, nothing behind the failure is judged. */
+        if (R.n >= 2 && !c->sfired && !c->kfired && c->off1 == c->off0 && c->olen == 0 && c->rc < 0) {
+            const struct dcall *f = &R.c[R.n - 2];
+            if ((f->sfired || f->kfired) && f->rc == f->fcode && f->fcode != -EAGAIN && f->fcode != -EINTR
+                && c->rc == f->fcode) {
+                mc_log("the decoder repeats the hard error without consuming: latched, run ended");
+                R.latched = true;
+                R.n--;
+                break;
+            }
+        }
         /* progress: every call but the last consumes an octet (or meets one
          * of the at most two injected faults); more calls than that cannot end */
         if (R.n > (int)len + 5) {
@@ -868,6 +894,8 @@ static struct {
     RFC1055Context *ctx;       /* use this context (reused across frames) instead of a fresh one */
     long src_at2_plus1;        /* second failing source call */
     int code2;
+    bool zero_any;             /* scripted zero answers also to single-octet calls */
+    long dead_from_plus1;      /* the sink takes nothing from this call (index + 1) on; 0: never */
 } EENV;
 
 /* Appends to E.out when append is set (concatenation family). */
@@ -908,6 +936,8 @@ run_encoder(bool sof, bool use_init_fn, enum kind kind, const unsigned char *p, 
     k.script = EENV.script;
     k.nscript = EENV.nscript;
     k.block = EENV.block;
+    k.zero_any = EENV.zero_any;
+    k.dead_from = EENV.dead_from_plus1 - 1;
     k.budget += 2 * (long)EENV.nscript;
     E.rc = rfc1055_encode(ctx, &source, &sink);
     mc_trans(1);
@@ -1582,7 +1612,7 @@ family_fault_decode(const struct sset *ss)
                                         "%s failed with %s during call %d, decode returned %s",
                                         which ? "source" : "sink", errname(CODES[ci]), i, errname(c->rc));
                         }
-                        if (fired && !R.hang && !R.overflow)
+                        if (fired && !R.hang && !R.overflow && !R.latched)
                             judge_from(sof, false, false, st, n, -1, behind);
                         mc_end(fired, !fired ? "fault-not-reached"
                                : which ? "decode-source-error"
@@ -1701,7 +1731,7 @@ family_alphabet_decode(const struct sset *ss_octet, const struct sset *ss_chunk)
                                             "%s failed with %s during call %d, decode returned %s",
                                             which ? "source" : "sink", errname(code), i, errname(c->rc));
                             }
-                            if (fired && !R.hang && !R.overflow)
+                            if (fired && !R.hang && !R.overflow && !R.latched)
                                 judge_from(sof, false, false, st, n, -1, behind);
                             mc_end(fired, !fired ? "fault-not-reached"
                                    : which ? "decode-source-error-alphabet"
@@ -1918,6 +1948,89 @@ family_encode_scripts(size_t max1, size_t max2, size_t maxfifo)
                 }
 }
 
+/* (h') runs of answers.  At every sink call position the sink answers k = 1..8
+ * times in a row "took nothing" (zero; also to a call offering one octet, the
+ * endpoint contract allows it and says the system offers again), -EAGAIN or
+ * -EINTR, then takes everything - or answers -EIO once behind the run; and a
+ * sink that takes nothing for ever from that position on.  Oracle (the same
+ * sentences as (h)): a success return means that a complete encoding reached
+ * the sink; a negative return is a code the sink answered - or, behind a zero
+ * answer, any negative code (an encoder may give up on a sink that takes
+ * nothing; the statement names no code for that); behind an -EIO answer
+ * success is not accepted.  In front of the dead sink the encoder may run into
+ * the call budget (it offers for ever) or give up with an error; it cannot
+ * report success. */
+static void
+run_script_case(bool sof, enum kind kind, const unsigned char *p, size_t n, int at, int runkind, int k, bool then_eio,
+                bool dead)
+{
+    static const char *const RK[3] = { "zero", "-EAGAIN", "-EINTR" };
+    static const signed char RA[3] = { A_ZERO, A_EAGAIN, A_EINTR };
+    if (!mc_would_run()) {
+        mc_skip_case();
+        return;
+    }
+    signed char sc[48];
+    memset(sc, A_ALL, sizeof sc);
+    int ns = 0;
+    if (dead) {
+        mc_case("encode-run mode=%s sink=%s payload=%s the sink takes nothing (answers zero) from call %d on, for ever",
+                modename(sof), kind == K_CHUNK ? "chunk/static-initialiser" : "octet/init-function", hex(p, n), at);
+    } else {
+        for (int i = 0; i < k; ++i)
+            sc[at + i] = RA[runkind];
+        ns = at + k;
+        if (then_eio)
+            sc[ns++] = A_EIO;
+        mc_case("encode-run mode=%s sink=%s payload=%s sink calls %d..%d answer %s (also to a single octet)%s, every other call takes everything",
+                modename(sof), kind == K_CHUNK ? "chunk/static-initialiser" : "octet/init-function", hex(p, n), at,
+                at + k - 1, RK[runkind], then_eio ? ", the call behind them answers -EIO" : "");
+    }
+    memset(&EENV, 0, sizeof EENV);
+    EENV.script = sc;
+    EENV.nscript = ns;
+    EENV.zero_any = true;
+    EENV.dead_from_plus1 = dead ? at + 1 : 0;
+    run_encoder(sof, kind == K_OCTET, kind, p, n, NO_INJECT, false);
+    memset(&EENV, 0, sizeof EENV);
+    const bool zeroed = (E.answered & ANS_BIT(A_ZERO)) != 0;
+    if (dead) {
+        /* reached the dead position: the budget overrun (offering for ever) and
+         * any error are admissible, success is not */
+        if (zeroed && E.rc >= 0 && !E.hang)
+            mc_fail("C12/encode-succeeds", "the sink took nothing from call %d on, encode returned %d (success) with %zu octets in the sink",
+                    at, E.rc, E.n);
+        else if (!zeroed)
+            judge_scripted_encode(sof, kind == K_OCTET, p, n);
+    } else if (zeroed && !(E.answered & ANS_HARD) && E.rc < 0 && !E.hang) {
+        /* gave up on a sink that took nothing: admissible, whatever the code */
+        mc_log("encode gave up behind a zero answer with %s", errname(E.rc));
+    } else {
+        judge_scripted_encode(sof, kind == K_OCTET, p, n);
+    }
+    mc_end(E.answered != 0, dead ? "encode-sink-dead" : runkind == 0 ? "encode-sink-zero-run" : "encode-sink-interrupt-run");
+}
+
+static void
+family_encode_runs(size_t maxlen)
+{
+    unsigned char p[8];
+    for (int sof = 0; sof < 2; ++sof)
+        for (int kind = 0; kind < 2; ++kind)
+            for (size_t n = 0; n <= maxlen; ++n)
+                for (uint64_t idx = 0; idx < P5[n]; ++idx) {
+                    nth_string(n, idx, p);
+                    const int slots = (int)(2 * n + 3);
+                    for (int at = 0; at < slots; ++at) {
+                        for (int rk = 0; rk < 3; ++rk)
+                            for (int k = 1; k <= 8; ++k)
+                                for (int te = 0; te < 2; ++te)
+                                    run_script_case(sof, (enum kind)kind, p, n, at, rk, k, te != 0, false);
+                        run_script_case(sof, (enum kind)kind, p, n, at, 0, 0, false, true);
+                    }
+                }
+}
+
 /* (f) the "random full-alphabet payloads up to 1 KiB" clause, replaced by
  * structured exhaustive families over all 256 octet values */
 static void
@@ -2030,6 +2143,7 @@ main(int argc, char **argv)
         family_fault_decode(th ? &fd_t : &fd_q);
     }
     family_encode_scripts(th ? 6 : 4, th ? 4 : 3, th ? 6 : 5);
+    family_encode_runs(th ? 5 : 3);
     family_alphabet_encode(th ? 4 : 3);
     {
         const struct sset ao_q = { 4, 6, 0 }, ac_q = { 3, 6, 0 };
@@ -2051,12 +2165,14 @@ main(int argc, char **argv)
                 "encode faults at every driver call (payload <= 5) x {-EIO,-EPIPE,-EAGAIN,-EINTR}; decode faults at every driver call (sink: 4 codes, source: -EIO,-EPIPE) with decoding continued, streams = class strings <= 6 + frame pairs (payload <= 2) + frame triples (payload <= 1); "
                 "source interruptions {-EAGAIN,-EINTR}: one at every source call (class strings <= 7 + frame pairs + triples), two at every pair of source calls (class strings <= 5 + frame pairs + triples), x 2 set-ups; "
                 "encoder sink scripts: 1 deviation (payload <= 6) and 2 deviations (payload <= 4) over 2n+3 call slots x {short, zero, -EAGAIN, -EINTR, -EIO, -ENODATA}, FIFO blocks 1..8 (payload <= 6); "
+                "runs of 1..8 equal answers {zero (also to a single octet), -EAGAIN, -EINTR} starting at each of the 2n+3 call slots, then everything taken or -EIO once, and a sink that takes nothing for ever from each slot on (payload <= 5), octet and chunk sinks; "
                 "error alphabet (every errno 1..133 and -134,-255,-256,-1000,-4095,-4096,-32768,-32769,-65536,INT_MIN+1,INT_MIN) at every driver call x {octet, chunk drivers}: encode payload <= 4 (source and sink), decode class strings <= 5 (octet) / <= 4 (chunk) + frame pairs and triples of payload <= 1 (sink: all codes, source: all but -EAGAIN/-EINTR) with decoding continued; "
                 "worst-case macro n <= 1100 and 2^k-2..2^k+2 (n <= SIZE_MAX/4) for k <= 62; ESC x all 256 second octets; all 65536 octet pairs, fills/ramps/cycles up to 1024"
               : "payloads and raw streams of length 0..7 over {41,c0,db,dc,dd}; pairs of payloads <= 3 x {fresh, reused init-function, reused static-initialiser context}; garbage <= 3 x (1-2 frames of payload <= 2, 3 frames of payload <= 1); "
                 "encode faults at every driver call (payload <= 3) x {-EIO,-EPIPE,-EAGAIN,-EINTR}; decode faults at every driver call (sink: 4 codes, source: -EIO,-EPIPE) with decoding continued, streams = class strings <= 5 + frame pairs (payload <= 2) + frame triples (payload <= 1); "
                 "source interruptions {-EAGAIN,-EINTR}: one at every source call (class strings <= 6 + frame pairs + triples), two at every pair of source calls (class strings <= 4 + frame pairs of payload <= 1), x 2 set-ups; "
                 "encoder sink scripts: 1 deviation (payload <= 4) and 2 deviations (payload <= 3) over 2n+3 call slots x {short, zero, -EAGAIN, -EINTR, -EIO, -ENODATA}, FIFO blocks 1..8 (payload <= 5); "
+                "runs of 1..8 equal answers {zero (also to a single octet), -EAGAIN, -EINTR} starting at each of the 2n+3 call slots, then everything taken or -EIO once, and a sink that takes nothing for ever from each slot on (payload <= 3), octet and chunk sinks; "
                 "error alphabet (every errno 1..133 and -134,-255,-256,-1000,-4095,-4096,-32768,-32769,-65536,INT_MIN+1,INT_MIN) at every driver call x {octet, chunk drivers}: encode payload <= 3 (source and sink), decode class strings <= 4 (octet) / <= 3 (chunk) + frame pairs of payload <= 1 (sink: all codes, source: all but -EAGAIN/-EINTR) with decoding continued; "
                 "worst-case macro n <= 1100 and 2^k-2..2^k+2 (n <= SIZE_MAX/4) for k <= 62; ESC x all 256 second octets; all 65536 octet pairs, fills/ramps/cycles up to 1024");
     return 0;
@@ -2308,7 +2424,7 @@ main(int argc, char **argv)
             } else {
                 /* behind a hard failure: the resynchronisation sentences only */
                 judge(sof, false, true, st, len, -1);
-                if (!R.hang && !R.overflow)
+                if (!R.hang && !R.overflow && !R.latched)
                     judge_from(sof, false, false, st, len, -1, behind);
             }
             struct key nk;
@@ -2328,7 +2444,9 @@ main(int argc, char **argv)
                 if (len == 0 || (nfr > 0 && fr[nfr - 1].e == len))
                     nk.as_initial = 1;
             }
-            if (!R.hang && !R.overflow && !capped && pass == 0)
+            /* a context that latched a hard driver error is not a context "after a
+             * corrupted prefix": it is owed nothing until rfc1055_context_init */
+            if (!R.hang && !R.overflow && !R.latched && !capped && pass == 0)
                 mc_set_add(&set, &nk, sizeof nk, cur, op, NULL);
             if (set.n > CTX_CAP)
                 capped = true;
